@@ -134,6 +134,50 @@ func runNullArm(c *core.Ctx) []core.Obligation {
 			b.ok(key, c.FuncPos(fn), "null arm returns (b[4:], nil)")
 		}
 	}
+	// null into a pointer: encoding/json stops at the first settable pointer and sets it to nil
+	// (indirect: decodingNull && v.CanSet()); it never passes null on to what the pointer points to.
+	if fn := c.Lookup("json.(decoder).decodePointer"); fn != nil {
+		key := "null-arm:pointer-set-nil"
+		in := fn.Params[1]
+		delegated, setsNil := "", false
+		for _, blk := range fn.Blocks {
+			inArm := false
+			for _, e := range dominatingEdges(blk) {
+				if call, isCall := e.ifi.Cond.(*ssa.Call); isCall && e.succ == 0 {
+					if f := staticCallee(call.Common()); f != nil && f.Name() == "hasNullPrefix" && len(call.Call.Args) == 1 && call.Call.Args[0] == ssa.Value(in) {
+						inArm = true
+					}
+				}
+			}
+			if !inArm {
+				continue
+			}
+			for _, ins := range blk.Instrs {
+				switch x := ins.(type) {
+				case *ssa.Call:
+					if staticCallee(x.Common()) == nil && !x.Common().IsInvoke() {
+						if _, isB := x.Call.Value.(*ssa.Builtin); !isB {
+							delegated = c.InstrPos(x)
+						}
+					}
+				case *ssa.Store:
+					if isNilConst(x.Val) {
+						setsNil = true
+					}
+				}
+			}
+		}
+		switch {
+		case delegated != "":
+			b.bad(key, delegated, "decodePointer hands null to the decoder of the pointed-to value when the pointer is not nil: for a **T the inner pointer is cleared and the outer one kept, where encoding/json clears the pointer it was asked to decode into")
+		case !setsNil:
+			b.bad(key, c.FuncPos(fn), "the null arm of decodePointer does not store nil through its target")
+		default:
+			b.ok(key, c.FuncPos(fn), "null sets the pointer itself to nil and is not passed on")
+		}
+	} else {
+		b.und("null-arm:pointer-set-nil", "-", "json.(decoder).decodePointer not found")
+	}
 	return b.out
 }
 
